@@ -442,7 +442,7 @@ func TestUTF8ClassExhaustive(t *testing.T) {
 		}
 		p := append([]byte(nil), s...)
 		for v := 0; v < 4; v++ {
-			run := convRun{server: v&1 != 0, entry: []int{entryReader, entryReadMessage}[v>>1]}
+			run := convRun{server: v&1 != 0, entry: []int{entryReader, entryReadMessage}[v>>1], extended: (index/10)&1 == 1}
 			var cuts []int
 			if index%20 == 0 && len(p) > 1 {
 				cuts = []int{len(p) / 2}
@@ -767,6 +767,9 @@ type convRun struct {
 	// payload to the end; interNone: returns at once (looks at the header only);
 	// interHalf: reads half of the payload. The reader must skip what is left itself.
 	inter int
+	// extended: the reading side's state carries ws.StateExtended (an extension was
+	// negotiated); the frames keep their RSV bits clear, i.e. plain uncompressed messages.
+	extended bool
 }
 
 const (
@@ -796,10 +799,11 @@ type convCase struct {
 	Cont    int         `json:"on_continuation_reads,omitempty"`
 	Stall   []int       `json:"transient_error_before_frames,omitempty"`
 	Inter   int         `json:"on_intermediate_mode,omitempty"`
+	Ext     bool        `json:"state_extended,omitempty"`
 }
 
 func (c convRun) desc() convCase {
-	return convCase{ref.Describe(c.frames), c.server, entryNames[c.entry], c.chunks, c.bufs, c.eofWD, c.discard, c.cont, c.stall, c.inter}
+	return convCase{ref.Describe(c.frames), c.server, entryNames[c.entry], c.chunks, c.bufs, c.eofWD, c.discard, c.cont, c.stall, c.inter, c.extended}
 }
 
 type convStats struct {
@@ -824,6 +828,9 @@ func runConversation(c convRun, st *convStats) string {
 	state := ws.StateClientSide
 	if c.server {
 		state = ws.StateServerSide
+	}
+	if c.extended {
+		state = state.Set(ws.StateExtended)
 	}
 	src := tx.NewSrc(wire, c.chunks)
 	src.EOFWithData = c.eofWD
@@ -1181,8 +1188,19 @@ func everySplit(t *testing.T, payload []byte, seed int, count *int, st *convStat
 							inters = []int{mi % numInter}
 						}
 					}
-					for _, inter := range inters {
+					for ii, inter := range inters {
 						run.inter = inter
+						run.extended = (mi+ii+len(cuts))&1 == 1
+						if mi == 0 && ii == 0 {
+							// plain round: the same case under StateExtended as well
+							ext := run
+							ext.extended = !run.extended
+							*count++
+							if msg := runConversation(ext, st); msg != "" {
+								hx.Failf(t, ext.desc(), "%s", msg)
+								return false
+							}
+						}
 						*count++
 						if op == ref.OpText && midSequenceCut(payload, cuts) {
 							noteMessage(payload, cuts, fmt.Sprintf("%s/server=%v/ctl=%v/bytewise=%v/oncont=%d/stalls=%v/onintermediate=%d", entryNames[entry], server, withCtl, byteChunks, cont, stalled, inter))
@@ -1237,7 +1255,7 @@ func TestMessageExhaustiveTiny(t *testing.T) {
 	one := func(p []byte, seed int) bool {
 		for cut := 0; cut <= len(p); cut++ {
 			for v := 0; v < 2*numEntries; v++ {
-				run := convRun{frames: fragment(ref.OpText, p, []int{cut}, v&1 != 0, seed, nil), server: v&1 != 0, entry: v >> 1}
+				run := convRun{frames: fragment(ref.OpText, p, []int{cut}, v&1 != 0, seed, nil), server: v&1 != 0, entry: v >> 1, extended: (cut+seed)&1 == 1}
 				n++
 				if msg := runConversation(run, &st); msg != "" {
 					hx.Failf(t, run.desc(), "%s", msg)
@@ -1313,7 +1331,7 @@ func TestAsciiRunAlignment(t *testing.T) {
 						})
 					}
 					for v := 0; v < 2*numEntries*2; v++ {
-						run := convRun{server: v&1 != 0, entry: (v >> 1) % numEntries}
+						run := convRun{server: v&1 != 0, entry: (v >> 1) % numEntries, extended: (k+ti+v>>1)&1 == 1}
 						var cuts []int
 						if v >= 2*numEntries { // fragmented in front of the sequence, 7-byte transport chunks
 							cuts = []int{k / 2}
@@ -1390,6 +1408,7 @@ func TestMessageRandom(t *testing.T) {
 			bufs:   rapid.SliceOfN(rapid.IntRange(1, 40), 1, 5).Draw(t, "bufs"),
 			eofWD:  rapid.Bool().Draw(t, "eofwd"),
 		}
+		run.extended = rapid.Bool().Draw(t, "extended")
 		seed := rapid.IntRange(0, 255).Draw(t, "keyseed")
 		if entry == entryReader {
 			run.cont = rapid.SampledFrom(contModes).Draw(t, "oncontinuation")
@@ -1426,6 +1445,7 @@ func TestMessageRandom(t *testing.T) {
 				}
 				hx.Class(fmt.Sprintf("message/random/%s/text/%s/valid=%v/%s", entryNames[entry], kind, valid, out))
 				hx.Class(fmt.Sprintf("message/random/mid-sequence-cut=%v/ctl=%v/chunks=%s", mid, len(ctl) > 0, gen.ChunkClass(run.chunks)))
+				hx.Class(fmt.Sprintf("message/random/%s/state-extended=%v/valid=%v", entryNames[entry], run.extended, valid))
 				if entry == entryReader && len(cuts) > 0 {
 					hx.Class(fmt.Sprintf("message/random/Reader/on-continuation=%d/valid=%v", run.cont, valid))
 				}
@@ -1456,6 +1476,7 @@ func TestConversationRandom(t *testing.T) {
 			bufs:   rapid.SliceOfN(rapid.IntRange(1, 40), 1, 5).Draw(t, "bufs"),
 			eofWD:  rapid.Bool().Draw(t, "eofwd"),
 		}
+		run.extended = rapid.Bool().Draw(t, "extended")
 		nmsg, ntext, ninvalid := 0, 0, 0
 		firstInvalid := -1
 		for _, e := range ref.Events(frames) {
